@@ -82,20 +82,15 @@ Fixpoint tp_dval (acc : Z) (s : list Z) : option Z :=
 Definition tp_digits_val (s : list Z) : option Z := match s with [] => None | _ => tp_dval 0 s end.
 
 (* boost::lexical_cast<long>: [+-]? digit+ and nothing else, LONG_MIN <= value <= LONG_MAX *)
+Definition tp_bounded (lim : Z) (v : option Z) : option Z :=
+  match v with Some x => if x <=? lim then Some x else None | None => None end.
 Definition tp_to_long (s : list Z) : option Z :=
   match s with
-  | 45 :: r => match tp_digits_val r with
-               | Some v => if v <=? 9223372036854775808 then Some (- v) else None
-               | None => None
-               end
-  | 43 :: r => match tp_digits_val r with
-               | Some v => if v <=? 9223372036854775807 then Some v else None
-               | None => None
-               end
-  | _ => match tp_digits_val s with
-         | Some v => if v <=? 9223372036854775807 then Some v else None
-         | None => None
-         end
+  | c :: r =>
+      if c =? 45 then option_map Z.opp (tp_bounded 9223372036854775808 (tp_digits_val r))
+      else if c =? 43 then tp_bounded 9223372036854775807 (tp_digits_val r)
+      else tp_bounded 9223372036854775807 (tp_digits_val s)
+  | [] => None
   end.
 
 (* "int x = Convert::ToLong(...)": two's complement narrowing *)
@@ -124,8 +119,51 @@ Definition tp_month_of (s : list Z) : option Z := tp_index_of s tp_month_names 0
 
 Definition tp_sub (from len : nat) (s : list Z) : list Z := firstn len (skipn from s).
 
+(* the part of ParseTimeSpec after Split(" ") *)
+Definition tp_parse_spec_tokens (tokens : list (list Z)) : option tp_spec :=
+  let t0 := hd [] tokens in
+  let monday := (* tokens.size() > 1 && (tokens[0] == "day" || (mon = MonthFromString(tokens[0])) != -1) *)
+    match tokens with
+    | _ :: t1 :: _ =>
+        if tp_beq t0 tp_kw_day then Some (None, t1)
+        else match tp_month_of t0 with Some m => Some (Some m, t1) | None => None end
+    | _ => None
+    end in
+  match monday with
+  | Some (mon, t1) =>
+      match tp_to_long_int t1 with
+      | Some mday => Some (TpMonthDay mon mday)
+      | None => None
+      end
+  | None =>
+      match tp_wday_of t0 with
+      | None => None                                        (* "Invalid time specification" *)
+      | Some wd =>
+          match tokens with
+          | _ :: t1 :: t2 :: _ =>
+              match tp_month_of t2 with
+              | None => None                                (* "Invalid month in time specification" *)
+              | Some m =>
+                  match tp_to_long_int t1 with
+                  | Some n => if n =? 0 then None else Some (TpWeekday wd (Some n) (Some m))
+                  | None => None
+                  end
+              end
+          | _ :: t1 :: [] =>
+              match tp_to_long_int t1 with
+              | Some n => if n =? 0 then None else Some (TpWeekday wd (Some n) None)
+              | None => None
+              end
+          | _ => Some (TpWeekday wd None None)
+          end
+      end
+  end.
+
+(* "YYYY-MM-DD": timespec.GetLength() == 10 && timespec[4] == '-' && timespec[7] == '-' *)
+Definition tp_is_date_form (s : list Z) : bool := (Nat.eqb (List.length s) 10) && ((nth 4 s 0 =? 45) && (nth 7 s 0 =? 45)).
+
 Definition tp_parse_spec (s : list Z) : option tp_spec :=
-  if (Nat.eqb (List.length s) 10) && (nth 4 s 0 =? 45) && (nth 7 s 0 =? 45) then
+  if tp_is_date_form s then
     match tp_to_long_int (tp_sub 0 4 s), tp_to_long_int (tp_sub 5 2 s), tp_to_long_int (tp_sub 8 2 s) with
     | Some y, Some m, Some d =>
         if (m <? 1) || (12 <? m) then None
@@ -133,85 +171,45 @@ Definition tp_parse_spec (s : list Z) : option tp_spec :=
         else Some (TpDate y m d)
     | _, _, _ => None
     end
-  else
-    let tokens := tp_split 32 s in
-    let t0 := hd [] tokens in
-    let monday := (* tokens.size() > 1 && (tokens[0] == "day" || (mon = MonthFromString(tokens[0])) != -1) *)
-      match tokens with
-      | _ :: t1 :: _ =>
-          if tp_beq t0 tp_kw_day then Some (None, t1)
-          else match tp_month_of t0 with Some m => Some (Some m, t1) | None => None end
-      | _ => None
-      end in
-    match monday with
-    | Some (mon, t1) =>
-        match tp_to_long_int t1 with
-        | Some mday => Some (TpMonthDay mon mday)
-        | None => None
-        end
-    | None =>
-        match tp_wday_of t0 with
-        | None => None                                        (* "Invalid time specification" *)
-        | Some wd =>
-            match tokens with
-            | _ :: t1 :: t2 :: _ =>
-                match tp_month_of t2 with
-                | None => None                                (* "Invalid month in time specification" *)
-                | Some m =>
-                    match tp_to_long_int t1 with
-                    | Some n => if n =? 0 then None else Some (TpWeekday wd (Some n) (Some m))
-                    | None => None
-                    end
-                end
-            | _ :: t1 :: [] =>
-                match tp_to_long_int t1 with
-                | Some n => if n =? 0 then None else Some (TpWeekday wd (Some n) None)
-                | None => None
-                end
-            | _ => Some (TpWeekday wd None None)
-            end
-        end
-    end.
+  else tp_parse_spec_tokens (tp_split 32 s).
 
 (* ---------------- ParseTimeRange ---------------- *)
 
-Definition tp_parse_daydef (s : list Z) : option tp_dayrange :=
-  let strided :=
-    match tp_break 47 s with
-    | Some (def, after) =>
-        match tp_to_long_int (tp_trim after) with
-        | Some k => Some (def, k)
-        | None => None
-        end
-    | None => Some (s, 1)
-    end in
-  match strided with
-  | None => None
-  | Some (def, stride) =>
-      match tp_break_dashsp def with
-      | Some (before, after) =>
-          let first := tp_trim before in
-          let second := tp_trim after in
-          match tp_parse_spec first with
+(* the part of ParseTimeRange after the stride has been cut off *)
+Definition tp_parse_range (def : list Z) (stride : Z) : option tp_dayrange :=
+  match tp_break_dashsp def with
+  | Some (before, after) =>
+      let first := tp_trim before in
+      let second := tp_trim after in
+      match tp_parse_spec first with
+      | None => None
+      | Some sp1 =>
+          let fword := match tp_break 32 second with Some (w, _) => w | None => second end in
+          let second' :=
+            match tp_to_long fword with
+            | Some _ => (match tp_break 32 first with Some (w, _) => w ++ [32] | None => [] end) ++ second
+            | None => second
+            end in
+          match tp_parse_spec second' with
           | None => None
-          | Some sp1 =>
-              let fword := match tp_break 32 second with Some (w, _) => w | None => second end in
-              let second' :=
-                match tp_to_long fword with
-                | Some _ => (match tp_break 32 first with Some (w, _) => w ++ [32] | None => [] end) ++ second
-                | None => second
-                end in
-              match tp_parse_spec second' with
-              | None => None
-              | Some sp2 => Some {| tp_dr_first := sp1; tp_dr_last := Some sp2; tp_dr_stride := stride |}
-              end
-          end
-      | None =>
-          match tp_parse_spec def with
-          | None => None
-          | Some sp => Some {| tp_dr_first := sp; tp_dr_last := None; tp_dr_stride := stride |}
+          | Some sp2 => Some {| tp_dr_first := sp1; tp_dr_last := Some sp2; tp_dr_stride := stride |}
           end
       end
+  | None =>
+      match tp_parse_spec def with
+      | None => None
+      | Some sp => Some {| tp_dr_first := sp; tp_dr_last := None; tp_dr_stride := stride |}
+      end
+  end.
+
+Definition tp_parse_daydef (s : list Z) : option tp_dayrange :=
+  match tp_break 47 s with
+  | Some (def, after) =>
+      match tp_to_long_int (tp_trim after) with
+      | Some k => tp_parse_range def k
+      | None => None
+      end
+  | None => tp_parse_range s 1
   end.
 
 (* ---------------- ProcessTimeRaw / ProcessTimeRangeRaw / ProcessTimeRanges ---------------- *)
